@@ -395,6 +395,8 @@ func init() {
 			c.ruleSendSideCopy()
 			c.ruleRetainedBufferFresh("E2.retained-buffer", []string{"internal/pkg/table", "pkg/packet/bgp", "pkg/server", "pkg/apiutil"}, 4)
 			c.ruleASNReaders()
+			c.ruleConfedPair("E4.confed-pair")
+			c.ruleAs4PathWidthIndependent("E2.as4path-width-independent")
 		},
 	})
 }
